@@ -185,20 +185,31 @@ theorem refineLoop_spec (g : Graph Rat) (hcols : ∀ i, i < g.n → ∀ e ∈ g.
       obtain ⟨rfl, -⟩ := h
       exact ⟨p1, p2⟩
 
-/-- **optimize_refine_core**, for every oracle: the result refines `labels`, and is reached by joining the
-    refined clusters of stored neighbours. -/
+theorem refineCapped_spec (g : Graph Rat) (hcols : ∀ i, i < g.n → ∀ e ∈ g.row i, e.1 < g.n) (res : Rat)
+    (labels : List Nat) (passes : Nat) (st : RSt Rat) (rands : List Nat) (hinv : RefInv g.n labels st.refined) :
+    RefInv g.n labels (refineCapped g res labels passes st rands).1.refined ∧
+    JoinSteps g st.refined (refineCapped g res labels passes st rands).1.refined := by
+  induction passes generalizing st rands with
+  | zero => exact ⟨hinv, JoinSteps.refl _⟩
+  | succ f ih =>
+    obtain ⟨p1, p2⟩ := rFold_spec g hcols res labels (List.range g.n) (fun i hi => List.mem_range.mp hi)
+      st false rands hinv
+    simp only [refineCapped]
+    split
+    · obtain ⟨q1, q2⟩ := ih _ _ p1
+      exact ⟨q1, p2.trans q2⟩
+    · exact ⟨p1, p2⟩
+
+/-- **optimize_refine_core**, for every oracle and whether or not the bound on the passes is reached: the result
+    refines `labels`, and is reached by joining the refined clusters of stored neighbours. -/
 theorem refineCore_spec (g : Graph Rat) (hcols : ∀ i, i < g.n → ∀ e ∈ g.row i, e.1 < g.n) (res : Rat)
     (labels : List Nat) (fuel : Nat) (st : RSt Rat) (rands : List Nat) (hinv : RefInv g.n labels st.refined)
     (refined' rest : List Nat) (h : refineCore g res labels fuel st rands = some (refined', rest)) :
     RefInv g.n labels refined' ∧ JoinSteps g st.refined refined' := by
   unfold refineCore at h
-  cases hc : refineLoop g res labels fuel st rands with
-  | none => rw [hc] at h; simp at h
-  | some r =>
-    rw [hc] at h
-    simp only [Option.map_some, Option.some.injEq, Prod.mk.injEq] at h
-    obtain ⟨rfl, -⟩ := h
-    exact refineLoop_spec g hcols res labels fuel st rands hinv r.1 r.2 hc
+  simp only [Option.some.injEq, Prod.mk.injEq] at h
+  obtain ⟨rfl, -⟩ := h
+  exact refineCapped_spec g hcols res labels (g.n + 1) st rands hinv
 
 end rat
 
